@@ -352,6 +352,129 @@ mod verif_c11_replay {
 '''
 
 
+CORPUS_TEST = r'''
+#[cfg(test)]
+mod verif_c11_corpus {
+    use super::*;
+    use crate::state::{AtomicPosition, ProgressState};
+    use std::sync::Arc;
+    use std::time::{Duration, Instant};
+
+    fn reference(key: &str, st: &ProgressState) -> Option<String> {
+        let total = st.len().unwrap_or(st.pos());
+        Some(match key {
+            "pos" => format!("{}", st.pos()),
+            "len" => format!("{}", total),
+            "human_pos" => format!("{}", HumanCount(st.pos())),
+            "human_len" => format!("{}", HumanCount(total)),
+            "percent" => format!("{:.*}", 0, st.fraction() * 100f32),
+            "percent_precise" => format!("{:.*}", 3, st.fraction() * 100f32),
+            "bytes" | "binary_bytes" => format!("{}", BinaryBytes(st.pos())),
+            "total_bytes" | "binary_total_bytes" => format!("{}", BinaryBytes(total)),
+            "decimal_bytes" => format!("{}", DecimalBytes(st.pos())),
+            "decimal_total_bytes" => format!("{}", DecimalBytes(total)),
+            "elapsed_precise" => format!("{}", FormattedDuration(st.elapsed())),
+            "elapsed" => format!("{:#}", HumanDuration(st.elapsed())),
+            "eta_precise" => format!("{}", FormattedDuration(st.eta())),
+            "eta" => format!("{:#}", HumanDuration(st.eta())),
+            "duration_precise" => format!("{}", FormattedDuration(st.duration())),
+            "duration" => format!("{:#}", HumanDuration(st.duration())),
+            "per_sec" => format!("{}/s", HumanFloatCount(st.per_sec())),
+            "bytes_per_sec" | "binary_bytes_per_sec" => format!("{}/s", BinaryBytes(st.per_sec() as u64)),
+            "decimal_bytes_per_sec" => format!("{}/s", DecimalBytes(st.per_sec() as u64)),
+            "msg" => st.message.expanded().to_string(),
+            "prefix" => st.prefix.expanded().to_string(),
+            _ => return None,
+        })
+    }
+
+    #[test]
+    fn verif_c11_key_corpus() {
+        let key = std::env::var("VERIF_C11_KEY").unwrap();
+        let style = ProgressStyle::with_template(&format!("{{{key}}}")).unwrap();
+        let mut n = 0;
+        for (pos, len) in [(0u64, None), (7, None), (3, Some(10u64)), (10, Some(10)), (12, Some(10)), (0, Some(0)), (u64::MAX, Some(5))] {
+            for finished in [false, true] {
+                for age in [0u64, 5, 4000] {
+                    if key.contains("per_sec") && (age == 0 || pos > 1_000_000) {
+                        continue; // position / (a few microseconds) is not stable between two clock reads
+                    }
+                    let ap = AtomicPosition::new();
+                    ap.set(pos);
+                    let mut st = ProgressState::new(len, Arc::new(ap));
+                    st.started = Instant::now().checked_sub(Duration::from_secs(age)).unwrap();
+                    st.message = crate::state::TabExpandedString::NoTabs("m".into());
+                    st.prefix = crate::state::TabExpandedString::NoTabs("p".into());
+                    if finished {
+                        st.set_status_done_for_verif();
+                    }
+                    // time keys are read from the clock twice (once by the reference, once by the renderer): accept either neighbour
+                    let before = reference(&key, &st);
+                    let mut lines = Vec::new();
+                    style.format_state(&st, &mut lines, 200);
+                    let got = lines.first().map(|l| l.as_ref().to_string()).unwrap_or_default();
+                    let after = reference(&key, &st);
+                    n += 1;
+                    if let (Some(b), Some(a)) = (before, after) {
+                        if got != b && got != a {
+                            println!("KEYCORPUS differs key={key} pos={pos} len={len:?} finished={finished} age={age}s rendered={got:?} reference={a:?}");
+                            return;
+                        }
+                    } else {
+                        println!("KEYCORPUS noreference key={key}");
+                        return;
+                    }
+                }
+            }
+        }
+        println!("KEYCORPUS same states={n}");
+    }
+}
+'''
+
+
+def native_key_corpus(root, key):
+    """-> (True differs / False same / None no reference or could not run, detail)"""
+    import props.C05 as C05
+    old = C05.ENV
+    C05.ENV = dict(old, VERIF_C11_KEY=key)
+    helper = "\n#[cfg(test)]\nimpl ProgressState {\n    pub(crate) fn set_status_done_for_verif(&mut self) {\n        self.status = Status::DoneVisible;\n    }\n}\n"
+    try:
+        # the helper lives in state.rs (private field), the test in style.rs
+        d_state = os.path.join(common.REPO, "src", "state.rs")
+        rc, out = native_test_two(root, {"style.rs": CORPUS_TEST, "state.rs": helper}, "verif_c11_key_corpus")
+    except Exception as e:  # noqa
+        return None, repr(e)
+    finally:
+        C05.ENV = old
+    m = re.search(r"KEYCORPUS (differs|same|noreference)(.*)", out)
+    if not m:
+        pm = re.search(r"(error[^\n]*\n[^\n]*|panicked at [^\n]*\n[^\n]*)", out)
+        return None, (pm.group(0) if pm else out[-300:])
+    if m.group(1) == "noreference":
+        return None, "no native reference for this key"
+    return (m.group(1) == "differs"), m.group(0)[:400]
+
+
+def native_test_two(root, appends, test_name, timeout=900):
+    """like C05.native_test, with code appended to several source files"""
+    import shutil
+    import subprocess
+    import props.C05 as C05
+    d = os.path.join(root, "native")
+    shutil.rmtree(d, ignore_errors=True)
+    os.makedirs(d)
+    for f in ("Cargo.toml", "Cargo.lock"):
+        shutil.copy2(os.path.join(common.REPO, f), os.path.join(d, f))
+    shutil.copytree(os.path.join(common.REPO, "src"), os.path.join(d, "src"))
+    for srcfile, code in appends.items():
+        with open(os.path.join(d, "src", srcfile), "a") as f:
+            f.write("\n" + code)
+    env = dict(C05.ENV, CARGO_TARGET_DIR=os.path.join(root, "target_native"))
+    p = subprocess.run(["cargo", "test", "--offline", "--lib", test_name, "--", "--nocapture", "--test-threads=1"], cwd=d, capture_output=True, text=True, env=env, timeout=timeout)
+    return p.returncode, p.stdout + p.stderr
+
+
 def native_replay(root, key, pos, len_):
     import props.C05 as C05
     env = {"VERIF_C11_KEY": key, "VERIF_C11_POS": str(pos)}
@@ -510,6 +633,15 @@ def run(tier, logdir):
                     continue
                 replayed, detail = True, "structural"
                 art_d = {"property": "C11", "key": key, "what": what}
+                if not (isinstance(model, dict) and model):
+                    # the arm could not be matched against the documented value structurally: a candidate, confirmed (or not) by
+                    # rendering the key for a corpus of states through the real format_state and comparing with the getter
+                    differs, detail = native_key_corpus(root, key)
+                    if differs is not True:
+                        queries.append({"name": "key {%s}: %s" % (key, what), "verdict": "INCONCLUSIVE",
+                                        "why": "%s; the native state corpus %s" % (what, "shows the documented rendering for every state tried" if differs is False else "could not decide: " + str(detail)[:200]), "wall_s": 0})
+                        continue
+                    art_d["corpus"] = detail
                 if isinstance(model, dict) and model:
                     def iv(x):
                         try:
@@ -672,6 +804,10 @@ def _art(tag, d):
 def replay(path):
     d = json.load(open(path))
     root = common.scratch_root()
+    if "corpus" in d:
+        differs, detail = native_key_corpus(root, d["key"])
+        say(detail)
+        return 2 if differs is None else (1 if differs else 0)
     if "native" in d:
         differs, detail = native_trackers(root)
         say(detail)
